@@ -1431,14 +1431,17 @@ class GroupByCumulativeFinalizer(Expr, GroupByBase):
 
         for i in range(1, self.frame.npartitions):
             # store each cumulative step to graph to reduce computation
+            # A group whose values are all null within a partition has no last
+            # value; it contributes the neutral element instead of a null
+            last = (M.fillna, (self.cum_last._name, i - 1), self.initial)
             if i == 1:
-                dsk[(name_cum, i)] = (self.cum_last._name, i - 1)
+                dsk[(name_cum, i)] = last
             else:
                 # aggregate with previous cumulation results
                 dsk[(name_cum, i)] = (
                     _cum_agg_filled,
                     (name_cum, i - 1),
-                    (self.cum_last._name, i - 1),
+                    last,
                     self.aggregate,
                     self.initial,
                 )
